@@ -19,6 +19,7 @@ func init() {
 			{"LOAD-KAHN", 6, ruleLoadKahn},
 			{"LOAD-CYCLE", 1, ruleLoadCycle},
 			{"LOAD-SORT", 3, ruleLoadSort},
+			{"LOAD-SLOTS", 1, ruleLoadSlots},
 		},
 	})
 	register(&propDef{
@@ -146,7 +147,7 @@ func ruleReloadInPlace(c *Ctx, r *R) {
 	if fd := c.Func("Value.syncFields"); fd != nil {
 		good := false
 		ast.Inspect(fd.Body, func(n ast.Node) bool {
-			if rs, ok := n.(*ast.RangeStmt); ok && strings.HasSuffix(c.Src(rs.X), ".Lookup") {
+			if rs, ok := n.(*ast.RangeStmt); ok && (strings.HasSuffix(c.Src(rs.X), ".Lookup") || strings.HasSuffix(c.Src(rs.X), ".Order")) {
 				ast.Inspect(rs.Body, func(m ast.Node) bool {
 					if call, ok := m.(*ast.CallExpr); ok && c.CalleeName(call) == "Value.addField" {
 						good = true
@@ -713,6 +714,52 @@ func ruleLoadFilter(c *Ctx, r *R) {
 			return true
 		})
 		r.check(good, "excluded -> empty tree", c.Pos(lf), "an excluded file yields an empty tree", "rawLoadFile does not return an empty tree for a file whose constraint is false")
+		// an excluded file is never tokenized or parsed: the verdict is taken first
+		ps := c.pathsOf("rawLoadFile")
+		nBC, early := 0, ""
+		for _, p := range ps {
+			isBC := false
+			for _, cd := range p.Conds {
+				if cd.String() == "checkBC" {
+					isBC = true
+				}
+			}
+			if !isBC {
+				continue
+			}
+			nBC++
+			verdictAt := -1
+			for i, e := range p.Eff {
+				if e.Kind != "call" || e.Value == nil {
+					continue
+				}
+				switch e.Value.Name {
+				case "checkConstraint":
+					if verdictAt < 0 {
+						verdictAt = i
+					}
+				case "tokenize", "parse":
+					if verdictAt < 0 && early == "" {
+						early = e.Value.Name + " at " + c.Pos(e.Node)
+					}
+				}
+			}
+			// excluded path: no tokenize/parse at all
+			cs := condStrings(p)
+			if strings.Contains(cs, "!checkConstraint(") {
+				for _, e := range p.Eff {
+					if e.Kind == "call" && e.Value != nil && (e.Value.Name == "tokenize" || e.Value.Name == "parse") && early == "" {
+						early = e.Value.Name + " at " + c.Pos(e.Node) + " on the excluded path"
+					}
+				}
+			}
+		}
+		if nBC == 0 {
+			r.undecided("excluded -> not parsed", c.Pos(lf), "no path of rawLoadFile is conditioned on checkBC")
+		} else {
+			r.check(early == "", "excluded -> not parsed", c.Pos(lf), "with checkBC the constraint verdict precedes tokenize/parse on every path",
+				"rawLoadFile runs "+early+" before the build-constraint verdict: a file excluded by //go:build is still tokenized and parsed, so Go code the goat subset cannot parse (which is why such files are excluded) aborts the load of the package instead of being ignored")
+		}
 	}
 }
 
